@@ -22,10 +22,13 @@ TECHNIQUE = "static analysis: abstract exploration of the JUnit reporter with XM
 
 
 def run(chk, ix, tier):
+    # row scenarios are built once and keep their state (status, skip marks): build_scenarios clears every table's modified mark
+    from .. import rules_outline
+    rules_outline.check_build_order(chk, ix)
     rules_junit.check_process_scenario(chk, ix)
     rules_junit.check_culprit_step(chk, ix)
     rules_junit.check_cdata_path(chk, ix)
     rules_junit.check_walker_and_capture(chk, ix)
     rules_junit.check_illegal_char_table(chk, ix)
-    for r, n in (("J1", 10), ("J2", 10), ("J3", 10), ("J4", 10), ("J5", 1), ("J6", 1), ("J7", 7)):
+    for r, n in (("B1", 1), ("B4", 1), ("J1", 10), ("J2", 10), ("J3", 10), ("J4", 10), ("J5", 1), ("J6", 1), ("J7", 7)):
         chk.require_instances(r, n)
